@@ -50,6 +50,7 @@ func dirSpellingAlphabet(c Cfg) []Op {
 		{K: "restartslash"},                    // toggles between the clean spelling and a trailing separator
 		{K: "restartslash", Arg: 2, Dev: true}, // "db/."
 		{K: "restartslash", Arg: 3, Dev: true}, // "./db" spelled in the middle of the path
+		{K: "restartslash", Arg: 4, Dev: true}, // through a symbolic link
 	}
 }
 
